@@ -203,46 +203,92 @@ impl<SC: StarkGenericConfig> OpenedValuesTargetsWithLookups<SC> {
     ///
     /// The opened values are extension field elements, so we use observe_ext_slice.
     ///
+    /// The native PCS observes the opened values round by round, matrix by matrix and
+    /// point by point. For `HidingFriPcs`, the native verifier merges the openings of the
+    /// random codewords (carried by the opening proof) into each point's values *before*
+    /// observing them, so they must be interleaved here to keep the Fiat-Shamir transcript
+    /// in sync. `fri_random_rounds` carries those values (layout: `rounds[round][mat][point]`,
+    /// see `RecursivePcs::get_fri_random_opened_values`); pass an empty slice for
+    /// non-hiding PCSs.
+    ///
     /// # Parameters
     /// - `circuit`: Circuit builder
     /// - `challenger`: Running challenger state
+    /// - `fri_random_rounds`: PCS-level random opened values to merge into each point
     pub fn observe<BF, EF>(
         &self,
         circuit: &mut CircuitBuilder<EF>,
         challenger: &mut impl RecursiveChallenger<BF, EF>,
+        fri_random_rounds: &[Vec<Vec<Vec<Target>>>],
     ) where
         BF: PrimeField64,
         EF: ExtensionField<BF>,
     {
+        // PCS-level random values opened alongside `rounds[round][mat][point]`, if any.
+        let fri_random = |round: usize, mat: usize, point: usize| -> &[Target] {
+            fri_random_rounds
+                .get(round)
+                .and_then(|r| r.get(mat))
+                .and_then(|m| m.get(point))
+                .map_or(&[], |v| v.as_slice())
+        };
+        // Rounds are ordered as in the native verifier: optional random, trace, quotient
+        // chunks, optional preprocessed, optional permutation.
+        let mut round = 0;
+
         // Observe random values if in ZK mode (extension field elements)
         if let Some(random_vals) = &self.opened_values_no_lookups.random_targets {
             challenger.observe_ext_slice(circuit, random_vals);
+            challenger.observe_ext_slice(circuit, fri_random(round, 0, 0));
+            round += 1;
         }
 
         // Observe trace values at zeta and zeta_next (extension field elements)
         challenger.observe_ext_slice(circuit, &self.opened_values_no_lookups.trace_local_targets);
+        challenger.observe_ext_slice(circuit, fri_random(round, 0, 0));
         challenger.observe_ext_slice(circuit, &self.opened_values_no_lookups.trace_next_targets);
+        challenger.observe_ext_slice(circuit, fri_random(round, 0, 1));
+        round += 1;
 
-        // Observe quotient chunk values (extension field elements)
-        for chunk_values in &self.opened_values_no_lookups.quotient_chunks_targets {
+        // Observe quotient chunk values (extension field elements): one matrix per chunk
+        for (mat, chunk_values) in self
+            .opened_values_no_lookups
+            .quotient_chunks_targets
+            .iter()
+            .enumerate()
+        {
             challenger.observe_ext_slice(circuit, chunk_values);
+            challenger.observe_ext_slice(circuit, fri_random(round, mat, 0));
         }
+        round += 1;
 
         if let Some(preprocessed_local_targets) =
             &self.opened_values_no_lookups.preprocessed_local_targets
         {
             challenger.observe_ext_slice(circuit, preprocessed_local_targets);
+            challenger.observe_ext_slice(circuit, fri_random(round, 0, 0));
         }
         if let Some(preprocessed_next_targets) =
             &self.opened_values_no_lookups.preprocessed_next_targets
         {
             challenger.observe_ext_slice(circuit, preprocessed_next_targets);
+            challenger.observe_ext_slice(circuit, fri_random(round, 0, 1));
         }
+        if self
+            .opened_values_no_lookups
+            .preprocessed_local_targets
+            .is_some()
+        {
+            round += 1;
+        }
+
         if !self.permutation_local_targets.is_empty() {
             challenger.observe_ext_slice(circuit, &self.permutation_local_targets);
+            challenger.observe_ext_slice(circuit, fri_random(round, 0, 0));
         }
         if !self.permutation_next_targets.is_empty() {
             challenger.observe_ext_slice(circuit, &self.permutation_next_targets);
+            challenger.observe_ext_slice(circuit, fri_random(round, 0, 1));
         }
     }
 }
